@@ -203,6 +203,12 @@ func (fs FileServer) serveFile(w http.ResponseWriter, r *http.Request) (int, err
 			continue
 		}
 
+		// a sibling that is a directory or is itself hidden is never served in place of the file
+		if encodedFileInfo.IsDir() || fs.IsHidden(encodedFileInfo) {
+			encodedFile.Close()
+			continue
+		}
+
 		// close the encoded file when we're done, and close the
 		// previously-opened file immediately to release the fd
 		defer encodedFile.Close()
